@@ -1,0 +1,113 @@
+//go:build verif
+
+package bytecode
+
+// Contracts for package bytecode, read by /verif/govc (comment-only file, build tag verif).
+
+// ---- static checker of process code (semanticcheck.go) ----
+// typeOf(e, dom, vals): the documented static type of expression e in the typing environment
+// with key set dom and bindings vals; PTERROR when some operator is applied to a combination
+// that the documented table (docs/language/LanguageDetails.md, parsed each run into
+// docResultType / docUnaryResultType) does not list.
+
+//@ specfunc typeOf(ast.AstProcessExpression, (Array Str Bool), (Array Str Int)) Int
+//@ pred knownExpr(e ast.AstProcessExpression) := e is ast.AstProcessBinaryExpression || e is ast.AstProcessUnaryExpression || e is ast.AstProcessString || e is ast.AstProcessNumber || e is ast.AstProcessBoolean || e is ast.AstProcessVariable
+//@ pred tDom(i ProcessTypeInfo) := domain(i.environment)
+//@ pred tVals(i ProcessTypeInfo) := values(i.environment)
+//@ pred sameCtx(r ProcessTypeInfo, i ProcessTypeInfo) := r.environment == i.environment && r.context == i.context && r.inLoop == i.inLoop
+
+//@ axiom typeOf_unknown: forall e ast.AstProcessExpression, d (Array Str Bool), m (Array Str Int) :: { typeOf(e, d, m) } !knownExpr(e) ==> typeOf(e, d, m) == PTERROR
+//@ axiom typeOf_bin: forall b ast.AstProcessBinaryExpression, d (Array Str Bool), m (Array Str Int) :: { typeOf(box(ast.AstProcessBinaryExpression, b), d, m) }
+//@    typeOf(box(ast.AstProcessBinaryExpression, b), d, m) == ((typeOf(b.Lhs, d, m) == PTERROR || typeOf(b.Rhs, d, m) == PTERROR) ? PTERROR : docResultType(typeOf(b.Lhs, d, m), b.Op, typeOf(b.Rhs, d, m)))
+//@ axiom typeOf_un: forall b ast.AstProcessUnaryExpression, d (Array Str Bool), m (Array Str Int) :: { typeOf(box(ast.AstProcessUnaryExpression, b), d, m) }
+//@    typeOf(box(ast.AstProcessUnaryExpression, b), d, m) == (typeOf(b.Expr, d, m) == PTERROR ? PTERROR : docUnaryResultType(b.Op, typeOf(b.Expr, d, m)))
+//@ axiom typeOf_str: forall b ast.AstProcessString, d (Array Str Bool), m (Array Str Int) :: { typeOf(box(ast.AstProcessString, b), d, m) } typeOf(box(ast.AstProcessString, b), d, m) == PTSTRING
+//@ axiom typeOf_num: forall b ast.AstProcessNumber, d (Array Str Bool), m (Array Str Int) :: { typeOf(box(ast.AstProcessNumber, b), d, m) } typeOf(box(ast.AstProcessNumber, b), d, m) == PTNUMBER
+//@ axiom typeOf_bool: forall b ast.AstProcessBoolean, d (Array Str Bool), m (Array Str Int) :: { typeOf(box(ast.AstProcessBoolean, b), d, m) } typeOf(box(ast.AstProcessBoolean, b), d, m) == PTBOOLEAN
+//@ axiom typeOf_var: forall b ast.AstProcessVariable, d (Array Str Bool), m (Array Str Int) :: { typeOf(box(ast.AstProcessVariable, b), d, m) }
+//@    typeOf(box(ast.AstProcessVariable, b), d, m) == (select(d, b.Name) ? select(m, b.Name) : PTSTRING)
+
+//@ func checkExpression [C12]
+//@   requires s != nil && info.environment != nil
+//@   ensures type: result.currentType == typeOf(*s, old(tDom(info)), old(tVals(info)))
+//@   ensures frame: sameCtx(result, info)
+//@ func checkBinaryExpr [C12]
+//@   requires s != nil && info.environment != nil
+//@   ensures table: result.currentType == ((typeOf(s.Lhs, old(tDom(info)), old(tVals(info))) == PTERROR || typeOf(s.Rhs, old(tDom(info)), old(tVals(info))) == PTERROR) ? PTERROR : docResultType(typeOf(s.Lhs, old(tDom(info)), old(tVals(info))), s.Op, typeOf(s.Rhs, old(tDom(info)), old(tVals(info)))))
+//@   ensures type: result.currentType == typeOf(box(ast.AstProcessBinaryExpression, *s), old(tDom(info)), old(tVals(info)))
+//@   ensures frame: sameCtx(result, info)
+//@ func checkUnaryExpr [C12]
+//@   requires s != nil && info.environment != nil
+//@   ensures table: result.currentType == (typeOf(s.Expr, old(tDom(info)), old(tVals(info))) == PTERROR ? PTERROR : docUnaryResultType(s.Op, typeOf(s.Expr, old(tDom(info)), old(tVals(info)))))
+//@   ensures type: result.currentType == typeOf(box(ast.AstProcessUnaryExpression, *s), old(tDom(info)), old(tVals(info)))
+//@   ensures frame: sameCtx(result, info)
+//@ func checkString [C12]
+//@   requires s != nil
+//@   ensures type: result.currentType == typeOf(box(ast.AstProcessString, *s), old(tDom(info)), old(tVals(info)))
+//@   ensures frame: sameCtx(result, info)
+//@ func checkNumber [C12]
+//@   requires s != nil
+//@   ensures type: result.currentType == typeOf(box(ast.AstProcessNumber, *s), old(tDom(info)), old(tVals(info)))
+//@   ensures frame: sameCtx(result, info)
+//@ func checkBoolean [C12]
+//@   requires s != nil
+//@   ensures type: result.currentType == typeOf(box(ast.AstProcessBoolean, *s), old(tDom(info)), old(tVals(info)))
+//@   ensures frame: sameCtx(result, info)
+//@ func checkVariable [C12]
+//@   requires s != nil && info.environment != nil
+//@   ensures type: result.currentType == typeOf(box(ast.AstProcessVariable, *s), old(tDom(info)), old(tVals(info)))
+//@   ensures frame: sameCtx(result, info)
+
+// ---- statement rules (documented "Statement Type Requirements" + break/continue in loop) ----
+
+//@ pred ctxOk(i ProcessTypeInfo) := i.environment != nil && (i.context == PREDICATE || i.context == TRANSFORMATION)
+//@ pred exprT(e ast.AstProcessExpression, i ProcessTypeInfo) := typeOf(e, tDom(i), tVals(i))
+
+//@ func checkBreak [C12]
+//@   ensures rule: (result.currentType == PTERROR) == (!info.inLoop || info.currentType == PTERROR)
+//@   ensures same: info.inLoop ==> result == info
+//@   ensures frame: sameCtx(result, info)
+//@ func checkContinue [C12]
+//@   ensures rule: (result.currentType == PTERROR) == (!info.inLoop || info.currentType == PTERROR)
+//@   ensures same: info.inLoop ==> result == info
+//@   ensures frame: sameCtx(result, info)
+//@ func checkReturn [C12]
+//@   requires s != nil && ctxOk(info)
+//@   let t := exprT(s.Expr, info)
+//@   ensures rule: (result.currentType == PTERROR) == (t == PTERROR || !(info.context == PREDICATE ? docReturnPredicate(t) : docReturnTransform(t)))
+//@   ensures ok: result.currentType != PTERROR ==> result.currentType == PTOK
+//@   ensures frame: sameCtx(result, info)
+//@ func checkDebug [C12]
+//@   requires s != nil && ctxOk(info)
+//@   ensures rule: (result.currentType == PTERROR) == (exprT(s.Expr, info) == PTERROR)
+//@   ensures ok: result.currentType != PTERROR ==> result.currentType == PTOK
+//@   ensures frame: sameCtx(result, info)
+//@ func checkSet [C12]
+//@   requires s != nil && ctxOk(info)
+//@   let t := exprT(s.Expr, info)
+//@   modifies entries(info.environment)
+//@   ensures rule: (result.currentType == PTERROR) == (t == PTERROR)
+//@   ensures bind: t != PTERROR ==> result.currentType == PTOK && domain(info.environment) == store(old(domain(info.environment)), s.Name, true) && values(info.environment) == store(old(values(info.environment)), s.Name, t)
+//@   ensures keep: t == PTERROR ==> domain(info.environment) == old(domain(info.environment)) && values(info.environment) == old(values(info.environment))
+//@   ensures frame: sameCtx(result, info)
+//@ func checkStatement [C12]
+//@   requires s != nil && ctxOk(info)
+//@   modifies entries(info.environment)
+//@   ensures frame: result.environment == info.environment && result.context == info.context
+//@   ensures inloop: result.currentType != PTERROR ==> result.inLoop == info.inLoop
+//@ func checkIf [C12]
+//@   requires s != nil && ctxOk(info)
+//@   modifies entries(info.environment)
+//@   let ct := exprT(s.Condition, info)
+//@   ensures cond: !docIfCond(ct) ==> result.currentType == PTERROR
+//@   ensures frame: result.environment == info.environment && result.context == info.context
+//@   ensures inloop: result.currentType != PTERROR ==> result.inLoop == info.inLoop
+//@   loop 1 invariant sameCtx(valueInfo, info) && valueInfo.currentType != PTERROR && docIfCond(ct)
+//@   loop 2 invariant sameCtx(valueInfo, info) && valueInfo.currentType != PTERROR && docIfCond(ct)
+//@ func checkLoop [C12]
+//@   requires s != nil && ctxOk(info)
+//@   let info0 := info
+//@   modifies entries(info.environment)
+//@   ensures inloop: result.currentType != PTERROR ==> result.inLoop == info0.inLoop
+//@   ensures frame: result.environment == info0.environment && result.context == info0.context
+//@   loop 1 invariant info.inLoop && info.environment == info0.environment && info.context == info0.context
